@@ -1,6 +1,6 @@
 SPECIFICATION Spec
 CONSTANTS
-  Templates = {"n", "k", "L1", "L2u", "L3u", "L4u", "N21u", "N23u", "D3u"}
+  Templates = {"n", "z", "b", "k", "L1", "L2u", "L3u", "L4u", "N21u", "N23u", "D3u"}
   MaxArgs = 3
   FirstList = TRUE
 INVARIANT InvLen
